@@ -236,7 +236,17 @@ func (c14) Gen(tier string, seed int64, emit func([]Ev)) {
 			if rm == nil {
 				rm = []int{}
 			}
-			emit([]Ev{{"op": "remove", "abs": absPMTEv(pmt), "payload": B(c06Payload(0, nil, sec, 0)), "remove": rm, "probe": []int{absent(), 0, pmtPid}}})
+			// a second removal on the same object, and (three times of four) the queries also *before* the first removal:
+			// an answer the object gave earlier must not survive a removal (a cached index, a memoised PID list)
+			rm2 := []int{}
+			for n := r.Intn(3); n > 0; n-- {
+				if len(pids) > 0 && r.Intn(4) != 0 {
+					rm2 = append(rm2, pids[r.Intn(len(pids))])
+				} else {
+					rm2 = append(rm2, absent())
+				}
+			}
+			emit([]Ev{{"op": "remove", "abs": absPMTEv(pmt), "payload": B(c06Payload(0, nil, sec, 0)), "remove": rm, "remove2": rm2, "pre": k != 3, "probe": []int{absent(), 0, pmtPid}}})
 		}
 	}
 }
@@ -315,28 +325,36 @@ func (c14) Exec(h []Ev) []Ev {
 				if err != nil {
 					panic("harness: NewPMT rejected a well-formed PMT: " + err.Error())
 				}
-				pmt.RemoveElementaryStreams(GIs(e["remove"]))
-				sa := [][]int{}
-				for _, es := range pmt.ElementaryStreams() {
-					sa = append(sa, []int{int(es.StreamType()), es.ElementaryPid()})
-				}
-				e["streams_after"] = sa
-				pa := []int{}
-				pa = append(pa, pmt.Pids()...)
-				e["pids_after"] = pa
-				ex := [][]int{}
-				probe := append(append([]int(nil), GIs(e["probe"])...), GIs(e["remove"])...)
+				probe := append(append(append([]int(nil), GIs(e["probe"])...), GIs(e["remove"])...), GIs(e["remove2"])...)
 				for _, s := range evAbsPMT(e["abs"]).Streams {
 					probe = append(probe, s.Pid)
 				}
-				for _, q := range probe {
-					v := 0
-					if pmt.PIDExists(q) {
-						v = 1
+				query := func(suffix string) {
+					sa := [][]int{}
+					for _, es := range pmt.ElementaryStreams() {
+						sa = append(sa, []int{int(es.StreamType()), es.ElementaryPid()})
 					}
-					ex = append(ex, []int{q, v})
+					e["streams_"+suffix] = sa
+					pa := []int{}
+					pa = append(pa, pmt.Pids()...)
+					e["pids_"+suffix] = pa
+					ex := [][]int{}
+					for _, q := range probe {
+						v := 0
+						if pmt.PIDExists(q) {
+							v = 1
+						}
+						ex = append(ex, []int{q, v})
+					}
+					e["exists_"+suffix] = ex
 				}
-				e["exists"] = ex
+				if GBool(e["pre"]) {
+					query("before")
+				}
+				pmt.RemoveElementaryStreams(GIs(e["remove"]))
+				query("after")
+				pmt.RemoveElementaryStreams(GIs(e["remove2"]))
+				query("after2")
 			}
 		})
 	}
@@ -349,7 +367,7 @@ func (c14) Class(e Ev) string {
 	}
 	a := evAbsPMT(e["abs"])
 	if GS(e["op"]) == "remove" {
-		return fmt.Sprintf("remove/streams%d/rm%d", bucket(len(a.Streams)), len(GIs(e["remove"])))
+		return fmt.Sprintf("remove/streams%d/rm%d/pre%v/rm2_%d", bucket(len(a.Streams)), len(GIs(e["remove"])), GBool(e["pre"]), len(GIs(e["remove2"])))
 	}
 	req := GIs(e["pids"])
 	present, missing := 0, 0
